@@ -32,6 +32,11 @@ let rec run_case (kind : string) (body : sexp list) : string * string =
       (* sub_closed on a subscriber that does not exist yet is skipped by the harness *)
       (show_sobs_list (srun subj0 h),
        if size_ok false h then show_sobs_list (arun asub0 h) else "UNSPECIFIED")
+  | "behavior" ->
+      let init = val_of (List.nth body 1) in
+      let h = List.map bop_of (args (List.nth body 2)) in
+      (show_bobs_list (brun (bsubj0 init) h),
+       if size_ok false (sops_of h) then show_bobs_list (abrun (asub0, init) h) else "UNSPECIFIED")
   | k -> failwith ("unknown case kind " ^ k)
 
 let () =
